@@ -1303,7 +1303,7 @@ def correspondence(ctx, cases, side):
     name = f"c18_{side}"
     terms, idx = [], []
     for i, c in enumerate(cases):
-        t = coq_case(c)
+        t = c.coq if hasattr(c, "coq") else coq_case(c)
         if t is not None:
             terms.append(t)
             idx.append(i)
@@ -1371,6 +1371,7 @@ def run(ctx: vlib.Ctx):
                 continue
             finally:
                 pass
+            c.coq = coq_case(c)         # before the oracle damages the result
             cases.append(c)
             hist_case(ctx, c)
             ctx.count(shape_key(c))
@@ -1383,7 +1384,7 @@ def run(ctx: vlib.Ctx):
             drop_module(c.mod)
 
 
-THEOREMS = ["C18_share"]
+THEOREMS = ["C18_share", "C18_decode_fresh", "C18_share_full_refuted"]
 
 
 def replay(rep: dict) -> int:
